@@ -2,7 +2,7 @@
    tied to pycel.excelutil by the correspondence run of harness/props/c11.py). *)
 From Coq Require Import ZArith List.
 From PV Require Import Lib.Py Model.Addr Proofs.C11 Proofs.C11Lattice Proofs.C11Parse Proofs.C11Notation
-  Proofs.C11Unbounded Proofs.C11UnboundedParse.
+  Proofs.C11Unbounded Proofs.C11UnboundedParse Proofs.C11Spellings.
 Import ListNotations.
 Open Scope Z_scope.
 
@@ -233,3 +233,26 @@ Theorem C11_unbounded_union_assoc_partial : forall s a b c, uwf a -> uwf b -> uw
   /\ (forall col row, uinside (ujoin (ujoin a b) c) col row <-> uinside (ujoin a (ujoin b c)) col row).
 Proof. exact uunion_assoc_cells. Qed.
 Print Assumptions C11_unbounded_union_assoc_partial.
+
+(* ---------------------------------------------------------------------------
+   (g) R1C1 spellings: each row / column component bare (R, C = the anchor's own),
+   absolute (R7) or relative (R[-2]); cells R..C.., ranges R..C..:R..C.., row-only
+   R..:R.. and column-only C..:C.. ranges.  From ANY anchor (ar, ac) and on any sheet
+   with sheet_ok, the text denotes the boundaries [sp_bounds] computed by offset
+   arithmetic with wrap-around (inc_row / inc_col, the functions of
+   address_at_offset), provided the text is not also an A1 reference
+   ([sp_unambiguous] excludes RC5, R1:R3, C2:C5, RC1:RC2, R:R, C:C, R:C, RC:RC,
+   which range_boundaries reads as A1 — Example ex_spell_ambiguous). *)
+Theorem C11_r1c1_spellings : forall s sp ar ac, sheet_ok s = true -> sp_ok sp -> sp_unambiguous sp = true ->
+  create (form_prefix 0 s ++ sp_text sp) [] (Some (ar, ac))
+  = bind (from_bounds s (sp_bounds (ar, ac) sp)) (fun a => Ok (VA a)).
+Proof. exact r1c1_spellings. Qed.
+Print Assumptions C11_r1c1_spellings.
+(* a cell reference whose components are bare or relative, from an anchor on the sheet: always a cell of the sheet *)
+Theorem C11_r1c1_spelling_cell : forall s r c ar ac, sheet_ok s = true -> rel_or_bare r -> rel_or_bare c ->
+  1 <= ac <= MAX_COL -> 1 <= ar <= MAX_ROW ->
+  create (form_prefix 0 s ++ sp_text (SpCell r c)) [] (Some (ar, ac))
+  = Ok (VA (ACell s (comp_val false (ar, ac) c) (comp_val true (ar, ac) r)))
+  /\ 1 <= comp_val false (ar, ac) c <= MAX_COL /\ 1 <= comp_val true (ar, ac) r <= MAX_ROW.
+Proof. exact r1c1_spelling_cell. Qed.
+Print Assumptions C11_r1c1_spelling_cell.
